@@ -56,6 +56,7 @@ type Scenario struct {
 	ISN32     *[2]int `json:"isn32"`
 	Label     string  `json:"label"`
 	CancelUs  int64   `json:"cancel_us"`
+	Drain     bool    `json:"drain"` // after the call has returned keep the wire running until the end of the listening window
 	wire.Script
 	Run    *RunParams     `json:"run"`
 	Mix    []*RunParams   `json:"mix"`
@@ -306,7 +307,16 @@ func runWire(t *testing.T, s *Scenario) (evs []wire.Event) {
 		if hung {
 			run, err = nil, errors.New("harness watchdog: the call did not return within 30 minutes of virtual time")
 		}
-		ret := []any{"ok", err == nil && panicked == "" && !hung, "hung", hung, "panic", panicked, "err", errInfo(err), "has_result", run != nil}
+		ret := []any{"ok", err == nil && panicked == "" && !hung, "hung", hung, "panic", panicked, "err", errInfo(err), "has_result", run != nil, "t", w.NowUs()}
+		if s.Drain && !hung {
+			// keep the wire alive until the end of the listening window the parameters define: replies that were still on their way
+			// when the call returned are logged as arrivals (C02 is owed to what arrives inside the window, whether or not the run
+			// was still listening)
+			end := time.Duration(s.TimeoutMs)*time.Millisecond + time.Duration(s.DelayMs*(s.Max-s.Min+1))*time.Millisecond
+			if rest := end - time.Duration(w.NowUs())*time.Microsecond; rest > 0 {
+				time.Sleep(rest)
+			}
+		}
 		if run != nil {
 			ret = append(ret, "hops", hopsOf(run), "src", ipStr(run.Source.IPAddress), "sport", int(run.Source.Port),
 				"dst", ipStr(run.Destination.IPAddress), "dport", int(run.Destination.Port))
